@@ -249,6 +249,24 @@ Theorem C12_clear_with_open_bound_refuted : exists t k xs, no_sep t /\ len16 k /
 Proof. exact clear_with_open_bound_refuted. Qed.
 Print Assumptions C12_clear_with_open_bound_refuted.
 
+(* whole-table delete (HTTP POST /kv/delrange/:ns/:table with delete_all -> DeleteTableRange(table, nil, nil)):
+   the deleted engine ranges hold exactly the keys of that table, of every data type (kv, hash, set, zset +
+   score index, list, bitmap, json) and every size/meta record. Model = the code after fix afc5d56. *)
+Theorem C12_delete_table_exact : forall t x, no_sep t -> wf_ekey x -> ekey_key_nonempty x ->
+  in_ranges (delete_table_ranges t) (encode_ekey x) = true <->
+  ekey_table x = t /\ table_delete_covers (ekey_type x) = true.
+Proof. exact delete_table_exact. Qed.
+Print Assumptions C12_delete_table_exact.
+
+(* the ranges of the code BEFORE the fix left the bitmap and json keys of the table behind (genuine defect,
+   reproduced end-to-end, fixed in the repository) *)
+Theorem C12_delete_table_before_fix_refuted :
+  let old_ranges t := firstn 11 (delete_table_ranges t) in
+  exists t x, no_sep t /\ wf_ekey x /\ ekey_table x = t /\ table_delete_covers (ekey_type x) = true /\
+              in_ranges (old_ranges t) (encode_ekey x) = false.
+Proof. exact delete_table_without_bitmap_json_refuted. Qed.
+Print Assumptions C12_delete_table_before_fix_refuted.
+
 (* ---------- the guards are the ones the code provides, and they are necessary ---------- *)
 
 (* extractTableFromRedisKey yields a ':'-free table and is inverted by packRedisKey *)
